@@ -265,6 +265,7 @@ Files ==
                  Check("files.numbering", NumberingOK(fs)),
                  Check("files.names", NamesOK(fs)),
                  Check("files.counts_sum", \A k \in 1..Len(fs) : fs[k].ninst = fs[k].sumcount),
+                 Check("files.dense_fill", \A k \in 1..Len(fs) : fs[k].ghost = 0),   \* fill values before release and after death, in every variable
                  Check("files.reference", \A k \in 1..Len(fs) : fs[k].ref = Ref(S.clock)),
                  Check("files.time", \A k \in 1..m : all[k].time = ClockTime(S.clock, hist[k].step)),
                  Check("files.records", \A k \in 1..m : RecOK(all[k], hist[k])),
